@@ -181,7 +181,10 @@ pub fn run_session(mut src: Source, supported: Arc<BTreeSet<String>>, properties
           let diffs = diff_store(&pre, &observed);
           if !diffs.is_empty() {
             let tgt = op.target().unwrap_or("");
-            let only_target = diffs.iter().all(|d| matches!(d, Diff::Value(n, ..) if n == tgt));
+            // a name that shares the target's cells through access links (recorded finding) shows the
+            // target's partial write too; that adds nothing to what the target's own change says
+            let only_target = diffs.iter().all(|d| matches!(d, Diff::Value(n, ..) if n == tgt || derivation_link(&pre, n, tgt).map(|o| link_rank(&o) == 4).unwrap_or(false)))
+              && diffs.iter().any(|d| matches!(d, Diff::Value(n, ..) if n == tgt));
             let name_set = diffs.iter().any(|d| matches!(d, Diff::Missing(_) | Diff::Extra(_)));
             let class = if name_set { "failed-statement-changed-name-set" } else if only_target { "torn-write" } else { "failed-statement-changed-binding" };
             let mut fam = verdict.fault.as_ref().map(|f| fault_family(f)).unwrap_or("?".into());
@@ -285,6 +288,30 @@ fn origin_tag(pre: &MStore, a: &str) -> String {
   pre.get(a).map(|b| b.origin.clone()).unwrap_or_else(|| "?".into())
 }
 
+/// How are two names related in the model? Follows the derivation links (each name -> the variable
+/// its defining expression read) in both directions and returns the least excusable link on the
+/// path between them (see the comment at the call site in `classify_ok_diffs`), or None.
+fn derivation_link(pre: &MStore, n: &str, t0: &str) -> Option<String> {
+  let src_of = |x: &str| pre.get(x).and_then(|bd| bd.src.clone());
+  let names: Vec<&String> = pre.keys().collect();
+  let mut adj: BTreeMap<&str, Vec<(&str, String)>> = BTreeMap::new();
+  for u in &names { if let Some(sv) = src_of(u) { if let Some(w) = names.iter().find(|x| ***x == sv) { let o = origin_tag(pre, u); adj.entry(u.as_str()).or_default().push((w.as_str(), o.clone())); adj.entry(w.as_str()).or_default().push((u.as_str(), o)); } } }
+  let mut seen: BTreeMap<&str, Vec<String>> = BTreeMap::new();
+  let mut queue: std::collections::VecDeque<&str> = Default::default();
+  if let Some(start) = names.iter().find(|x| ***x == t0) { seen.insert(start.as_str(), vec![]); queue.push_back(start.as_str()); }
+  let mut found: Option<Vec<String>> = None;
+  while let Some(u) = queue.pop_front() {
+    if u == n { found = seen.get(u).cloned(); break; }
+    let here = seen.get(u).cloned().unwrap_or_default();
+    for (w, o) in adj.get(u).cloned().unwrap_or_default() { if !seen.contains_key(w) { let mut pth = here.clone(); pth.push(o); seen.insert(w, pth); queue.push_back(w); } }
+  }
+  found.and_then(|labels| labels.into_iter().min_by_key(|o| link_rank(o)))
+}
+/// 0-3: links that must copy (sharing through them is a defect of its own); 4: access links, whose sharing is a recorded finding.
+fn link_rank(o: &String) -> u8 {
+  if o.ends_with("<-var") || o.contains("<-built-") { 0 } else if o.starts_with("destructure") { 1 } else if o.ends_with("<-var-idx") { 2 } else if o.ends_with("<-field") || o.ends_with("<-tuple-elem") || o.ends_with("<-map-get") { 4 } else { 3 }
+}
+
 fn classify_ok_diffs(op: &Op, verdict: &Verdict, pre: &MStore, expected: &MStore, observed: &Store, diffs: &[Diff], viol: &mut dyn FnMut(&str, String, String, String) -> Violation) -> Violation {
   let tgt: Vec<String> = match op {
     Op::Destructure { names, .. } => names.clone(),
@@ -310,25 +337,7 @@ fn classify_ok_diffs(op: &Op, verdict: &Verdict, pre: &MStore, expected: &MStore
         // excusable link on the path: a link that must copy (define from a variable, destructure,
         // index read) outranks the access links, whose sharing is a recorded finding — so a recorded
         // finding never absorbs a chain that needs a copying define to have shared its source.
-        let derived: Option<String> = {
-          let names: Vec<&String> = pre.keys().collect();
-          let mut adj: BTreeMap<&str, Vec<(&str, String)>> = BTreeMap::new();
-          for u in &names { if let Some(sv) = src_of(u) { if let Some(w) = names.iter().find(|x| ***x == sv) { let o = origin_tag(pre, u); adj.entry(u.as_str()).or_default().push((w.as_str(), o.clone())); adj.entry(w.as_str()).or_default().push((u.as_str(), o)); } } }
-          // breadth-first from the target to the changed name, remembering the link labels on the way
-          let mut seen: BTreeMap<&str, Vec<String>> = BTreeMap::new();
-          let mut queue: std::collections::VecDeque<&str> = Default::default();
-          if let Some(start) = names.iter().find(|x| ***x == t0) { seen.insert(start.as_str(), vec![]); queue.push_back(start.as_str()); }
-          let mut found: Option<Vec<String>> = None;
-          while let Some(u) = queue.pop_front() {
-            if u == n.as_str() { found = seen.get(u).cloned(); break; }
-            let here = seen.get(u).cloned().unwrap_or_default();
-            for (w, o) in adj.get(u).cloned().unwrap_or_default() { if !seen.contains_key(w) { let mut pth = here.clone(); pth.push(o); seen.insert(w, pth); queue.push_back(w); } }
-          }
-          found.and_then(|labels| {
-            let rank = |o: &String| if o.ends_with("<-var") || o.contains("<-built-") { 0 } else if o.starts_with("destructure") { 1 } else if o.ends_with("<-var-idx") { 2 } else if o.ends_with("<-field") || o.ends_with("<-tuple-elem") || o.ends_with("<-map-get") { 4 } else { 3 };
-            labels.into_iter().min_by_key(|o| rank(o))
-          })
-        };
+        let derived: Option<String> = derivation_link(pre, n, &t0);
         let via = match &derived {
           Some(o) if o.ends_with("<-field") => "via-field-access",
           Some(o) if o.ends_with("<-tuple-elem") => "via-tuple-element-access",
